@@ -26,24 +26,30 @@
 (*                      <= t < WinEnd(L), 1 <= n <= NB                                      *)
 EXTENDS Integers, Sequences, FiniteSets, TLC, SequencesExt
 
-CONSTANTS Sizes, NB
+\* level sizes and bucket count are VARIABLES that never change, only so that one trace
+\* validation run can hold traces of series with different shapes (they are read from the real
+\* object into the trace header); model checking and generation fix them in the initial state
+VARIABLES sizes, nb
+Sizes == sizes
+NB == nb
 
 NL == Len(Sizes)
 Levels == 1..NL
 
 VARIABLES obs, maxT, seen, clean
-ovars == <<obs, maxT, seen, clean>>
+ovars == <<obs, maxT, seen, clean, sizes, nb>>
 
 Interior(t) == t % Sizes[1] # 0
 CeilTo(t, s) == ((t + s - 1) \div s) * s
 FloorTo(t, s) == (t \div s) * s
 Max2(x, y) == IF x > y THEN x ELSE y
 
-OInit == obs = <<>> /\ maxT = 0 /\ seen = FALSE /\ clean = TRUE
+OInitWith(sz, n) == obs = <<>> /\ maxT = 0 /\ seen = FALSE /\ clean = TRUE /\ sizes = sz /\ nb = n
 
 Tell(t) == /\ maxT' = IF seen THEN Max2(maxT, t) ELSE t
            /\ seen' = TRUE
            /\ clean' = (clean /\ Interior(t))
+           /\ UNCHANGED <<sizes, nb>>
 
 OAdd(t, v) == Tell(t) /\ obs' = Append(obs, <<t, v>>)
 OClock(now) == Tell(now) /\ UNCHANGED obs           \* Latest reads the clock
